@@ -36,3 +36,52 @@ def seqof_sparse_read():
     except (IndexError, KeyError, Exception) as e:
         return False, 'so[4] raised %s' % type(e).__name__
     return len(so) != before, 'reading so[4] of a 1-element SEQUENCE OF succeeds and len() goes from %d to %d' % (before, len(so))
+
+
+def constraint_add(n):
+    """set + constraint keeps every operand and appends the new one, also when the new one compares equal
+    (by operands) to an existing operand of another kind"""
+    from pyasn1.type import constraint
+    ops = [constraint.ValueRangeConstraint(0, 7), constraint.ValueRangeConstraint(1, 9)][:n]
+    new = constraint.SingleValueConstraint(0, 7)
+    base = constraint.ConstraintsIntersection(*ops)
+    derived = base + new
+    got = list(derived)
+    ok = len(got) == n + 1 and all(got[i] is ops[i] for i in range(n)) and got[n] is new
+    return (not ok), 'ConstraintsIntersection(%s) + SingleValueConstraint(0, 7) has operands %r' % (
+        ', '.join(repr(o) for o in ops), got)
+
+
+def simple_derive_frame(method='clone'):
+    """clone()/subtype() leave the source object's read-only record alone"""
+    from pyasn1.type import univ, tag, constraint
+    a = univ.Integer(5)
+    before = dict(a.readOnly)
+    if method == 'clone':
+        a.clone(tagSet=tag.initTagSet(tag.Tag(tag.tagClassContext, tag.tagFormatSimple, 9)),
+                subtypeSpec=constraint.ConstraintsIntersection(constraint.ValueRangeConstraint(0, 9)))
+    else:
+        a.subtype(implicitTag=tag.Tag(tag.tagClassContext, tag.tagFormatSimple, 9),
+                  subtypeSpec=constraint.ValueRangeConstraint(0, 9))
+    after = dict(a.readOnly)
+    bad = [k for k in before if before[k] is not after.get(k)] + [k for k in after if k not in before]
+    return bool(bad), 'Integer(5).%s(...) changed the source object\'s read-only record: %s' % (method, bad or 'nothing')
+
+
+def simple_derive_funnel(method='subtype'):
+    """a value object derived with a narrower constraint is validated: it either satisfies its own subtypeSpec or the
+    derivation is refused"""
+    from pyasn1.type import univ, constraint
+    from pyasn1 import error
+    a = univ.Integer(25)
+    try:
+        b = getattr(a, method)(subtypeSpec=constraint.ValueRangeConstraint(0, 10)) if method == 'subtype' else \
+            a.clone(subtypeSpec=constraint.ConstraintsIntersection(constraint.ValueRangeConstraint(0, 10)))
+    except error.PyAsn1Error:
+        return False, 'derivation refused'
+    try:
+        b.subtypeSpec(int(b))
+    except error.PyAsn1Error:
+        return True, 'Integer(25).%s(subtypeSpec=ValueRange(0,10)) produced the value object %r which its own ' \
+                     'subtypeSpec rejects' % (method, b)
+    return False, 'derived object %r satisfies its constraint' % (b,)
